@@ -105,6 +105,26 @@ def replay_labels(prog: dict, labels: list[dict]) -> dict:
                 run.send_cancel()
             elif nm == "EarlyStart":
                 run.early_start(lb["mid"][1])
+            elif nm == "SweepSnap":
+                # a sweep concurrent with the handlers: the complete deliveries the model places between its read, its
+                # look-ups and its push are nested into the real sweep at those statements
+                groups, cur, j = [], [], i + 1
+                while j < n and labels[j]["name"] != "SweepPush":
+                    x = labels[j]["name"]
+                    if x == "SweepLook":
+                        groups.append(cur)
+                        cur = []
+                    elif x == "Poll":
+                        cur.append(labels[j]["mid"])
+                    elif x in ("Crash", "Withhold", "LockExpire", "TimePasses", "Sweep", "SendCancel", "SendSignal", "EarlyStart"):
+                        raise Diverged("a concurrent sweep interleaved with " + x + " is not replayable by the nested-delivery driver")
+                    j += 1
+                if j >= n or len(groups) != 1:
+                    raise Diverged("incomplete concurrent sweep in the counter-example")
+                groups.append(cur)
+                run.sweep_concurrent(groups[0], groups[1])
+                i = j + 1
+                continue
             elif nm == "SendCancelRegion":
                 run.send_cancel_region(lb["mid"][1])
             elif nm == "PauseWorkflow":
